@@ -440,7 +440,7 @@ pub fn check(run: &Run) -> Value {
     let vectors = specbin::self_check().unwrap_or_else(|e| crate::evidence::machinery_failure(&format!("specbin does not reproduce a worked example of docs/binary.md: {}", e)));
     let cs = cases(run.tier);
     let seed = run.seed;
-    let total: SweepOut = run_cases(&cs, &|i, c, out| {
+    let mut total: SweepOut = run_cases(&cs, &|i, c, out| {
         out.nontrivial += (c.dim != "base") as u64;
         out.executions += 1;
         let vs = judge(c);
@@ -452,16 +452,20 @@ pub fn check(run: &Run) -> Value {
             out.samples.push(serde_json::to_string(c).unwrap());
         }
     });
+    let files_by_dim = total.outcomes.clone();
+    let (c0, _e0) = (total.cases, total.executions);
+    let scalar = crate::scalar::sweep(run, crate::scalar::Which::SpecVsReader, &mut total);
     total.report(run);
-    let dims: BTreeSet<&String> = total.outcomes.keys().collect();
-    println!("C04 sweep: files={} dimensions={} {:?}", total.cases, dims.len(), total.outcomes);
+    let dims: BTreeSet<&String> = files_by_dim.keys().collect();
+    println!("C04 sweep: files={} dimensions={} {:?} scalar={}", c0, dims.len(), files_by_dim, scalar);
     json!({
+        "scalar_sweep": scalar,
         "states": total.cases,
         "transitions": total.executions,
         "traces_validated_against_impl": total.executions,
         "evaluations": total.executions,
         "distinct_nontrivial": total.nontrivial,
-        "files_per_degree_of_freedom": total.outcomes,
+        "files_per_degree_of_freedom": files_by_dim,
         "doc_vectors_reproduced_by_spec_codec": vectors,
         "samples": total.samples.iter().map(|s| serde_json::from_str::<Value>(s).unwrap()).collect::<Vec<_>>(),
         "exhaustive": true,
